@@ -64,13 +64,25 @@ func accStep(acc uint64, cmd []byte) (uint64, sm.Result) {
 type userSM interface {
 	acc() uint64
 	callsOf(index uint64) int
+	gotCmds() map[uint64][]byte
 	setOnSave(f func())
 }
 
 type counter struct {
 	calls  map[uint64]int
 	onSave func()
+	// what the state machine was handed: index -> command (copied in batches BEFORE any of them is applied,
+	// a state machine may keep the commands of a batch until Update returns)
+	got map[uint64][]byte
 }
+
+func (c *counter) note(index uint64, cmd []byte) {
+	if c.got == nil {
+		c.got = map[uint64][]byte{}
+	}
+	c.got[index] = append([]byte(nil), cmd...)
+}
+func (c *counter) gotCmds() map[uint64][]byte { return c.got }
 
 func (c *counter) callsOf(i uint64) int { return c.calls[i] }
 func (c *counter) setOnSave(f func())   { c.onSave = f }
@@ -112,6 +124,7 @@ type regSM struct {
 func (s *regSM) acc() uint64 { return s.a }
 func (s *regSM) Update(e sm.Entry) (sm.Result, error) {
 	s.calls[e.Index]++
+	s.note(e.Index, e.Cmd)
 	var r sm.Result
 	s.a, r = accStep(s.a, e.Cmd)
 	return r, nil
@@ -141,6 +154,9 @@ type concSM struct {
 func (s *concSM) acc() uint64 { return s.a }
 func (s *concSM) Update(ents []sm.Entry) ([]sm.Entry, error) {
 	for i := range ents {
+		s.note(ents[i].Index, ents[i].Cmd)
+	}
+	for i := range ents {
 		s.calls[ents[i].Index]++
 		s.a, ents[i].Result = accStep(s.a, ents[i].Cmd)
 	}
@@ -167,6 +183,7 @@ func (s *concSM) Close() error { return nil }
 type diskState struct{ acc, applied uint64 }
 
 type diskSM struct {
+	pw *power
 	counter
 	mem  diskState
 	disk *diskState
@@ -179,6 +196,9 @@ func (s *diskSM) Open(<-chan struct{}) (uint64, error) {
 }
 func (s *diskSM) Update(ents []sm.Entry) ([]sm.Entry, error) {
 	for i := range ents {
+		s.note(ents[i].Index, ents[i].Cmd)
+	}
+	for i := range ents {
 		s.calls[ents[i].Index]++
 		if ents[i].Index <= s.mem.applied {
 			panic(fmt.Sprintf("on-disk SM: entry %d delivered again (applied %d)", ents[i].Index, s.mem.applied))
@@ -189,7 +209,12 @@ func (s *diskSM) Update(ents []sm.Entry) ([]sm.Entry, error) {
 	return ents, nil
 }
 func (s *diskSM) Lookup(interface{}) (interface{}, error) { return s.mem.acc, nil }
-func (s *diskSM) Sync() error                             { *s.disk = s.mem; return nil }
+func (s *diskSM) Sync() error {
+	if !s.pw.dead() {
+		*s.disk = s.mem
+	}
+	return nil
+}
 func (s *diskSM) PrepareSnapshot() (interface{}, error)   { return s.mem, nil }
 func (s *diskSM) SaveSnapshot(ctx interface{}, w io.Writer, _ <-chan struct{}) error {
 	s.fireOnSave()
@@ -201,8 +226,8 @@ func (s *diskSM) RecoverFromSnapshot(r io.Reader, _ <-chan struct{}) error {
 	if err != nil {
 		return err
 	}
+	// RecoverFromSnapshot need not be durable: the state reaches the disk with the next Sync
 	s.mem = diskState{v[0], v[1]}
-	*s.disk = s.mem
 	return nil
 }
 func (s *diskSM) Close() error { return nil }
@@ -267,14 +292,20 @@ type removal struct {
 }
 
 type cellLogDB struct {
+	pw        *power // non-nil: writes after a power cut are lost
 	ss        pb.Snapshot
 	maxIndex  uint64 // highest stored entry index
 	removedTo uint64 // entries <= removedTo are gone
 	removals  []removal
+	// requests to reclaim the space of removed entries (auto compaction): to = index, recorded = removedTo then
+	compactions []removal
 	entries   map[uint64]pb.Entry
 }
 
 func (l *cellLogDB) save(updates []pb.Update) error {
+	if l.pw.dead() {
+		return nil
+	}
 	for _, ud := range updates {
 		if !pb.IsEmptySnapshot(ud.Snapshot) && ud.Snapshot.Index > l.ss.Index {
 			// a log store keeps the serialised record, not the caller's struct
@@ -340,13 +371,17 @@ func (l *cellLogDB) ReadRaftState(_ uint64, _ uint64, snapshotIndex uint64) (raf
 	return raftio.RaftState{FirstIndex: first, EntryCount: l.maxIndex - first + 1}, nil
 }
 func (l *cellLogDB) RemoveEntriesTo(_ uint64, _ uint64, index uint64) error {
+	if l.pw.dead() {
+		return nil
+	}
 	l.removals = append(l.removals, removal{to: index, recorded: l.ss.Index})
 	if index > l.removedTo {
 		l.removedTo = index
 	}
 	return nil
 }
-func (l *cellLogDB) CompactEntriesTo(uint64, uint64, uint64) (<-chan struct{}, error) {
+func (l *cellLogDB) CompactEntriesTo(_ uint64, _ uint64, index uint64) (<-chan struct{}, error) {
+	l.compactions = append(l.compactions, removal{to: index, recorded: l.removedTo})
 	ch := make(chan struct{})
 	close(ch)
 	return ch, nil
@@ -363,6 +398,8 @@ type params struct {
 	ordered  bool
 	compress bool
 	overhead uint64
+	autoc    bool   // config.DisableAutoCompactions = false: removeLog also asks the log store to compact
+	enc      uint64 // how application entries with a payload are encoded: 0 plain ApplicationEntry, 1 EncodedEntry v0 uncompressed, 2 EncodedEntry snappy, 3 mixed by index
 }
 
 type replica struct {
@@ -394,7 +431,7 @@ func start(name string, id uint64, p params, fs hk.IFS, ldb *cellLogDB, disk *di
 		panic(err)
 	}
 	cfg := config.Config{ShardID: 1, ReplicaID: id, CompactionOverhead: p.overhead,
-		OrderedConfigChange: p.ordered, DisableAutoCompactions: true}
+		OrderedConfigChange: p.ordered, DisableAutoCompactions: !p.autoc}
 	if p.compress {
 		cfg.SnapshotCompressionType = config.Snappy
 	}
@@ -412,7 +449,7 @@ func start(name string, id uint64, p params, fs hk.IFS, ldb *cellLogDB, disk *di
 		if r.disk == nil {
 			r.disk = &diskState{}
 		}
-		u := &diskSM{counter: counter{calls: map[uint64]int{}}, disk: r.disk}
+		u := &diskSM{counter: counter{calls: map[uint64]int{}}, disk: r.disk, pw: ldb.pw}
 		r.usm, msm = u, hk.NewOnDiskSM(cfg, u, done)
 	default:
 		panic("unknown kind " + p.kind)
@@ -431,6 +468,10 @@ func (r *replica) view() hk.View { return hk.ViewOf(r.sm) }
 // initial Recover task (which opens an on-disk state machine), then removeLog
 // on the next step. Returns the index recovered from (0: no snapshot).
 func (r *replica) initialRecover(newNode bool) uint64 {
+	// NodeHost.startShard
+	if err := r.node.ProcessOrphans(); err != nil {
+		panic(err)
+	}
 	if _, err := r.node.ReplayLog(); err != nil {
 		panic(err)
 	}
